@@ -66,10 +66,13 @@ def make_launcher(rp, scratch):
     return lc
 
 
-def size_real(rp, lc, sess, label, schema, pd_args, smt_env):
+def size_real(rp, lc, sess, label, schema, pd_args, smt_env, rcfg=None):
     import tempfile
     try:
-        rcfg = sess.get_resource_config(label, schema or None)
+        # a launch bulk hands ONE resource config object to _prepare_pilot for all its pilots
+        # (_start_pilot_bulk); callers pass `rcfg` to reproduce that
+        if rcfg is None:
+            rcfg = sess.get_resource_config(label, schema or None)
     except Exception as e:
         return ['err', 'unresolvable']
     pd   = rp.PilotDescription(dict({'resource': label, 'runtime': 10}, **pd_args))
@@ -204,6 +207,11 @@ def run(ctx):
         done.add((r['label'], r['schema']))
         if not r['schemaOk']: continue
         cpn = r['cpn'] or 1
+        try:
+            bulk_rcfg = sess.get_resource_config(r['label'], r['schema'] or None)   # shared by the whole bulk
+        except Exception:
+            bulk_rcfg = None
+        bulk = []
         for _ in range(nsz):
             smt_env = rng.choice([0, 0, 0, 2, 4]) if r['cpn'] else 0
             smt = smt_env or r['smt']
@@ -220,7 +228,7 @@ def run(ctx):
                     dist['gpu_bound'] += 1
                 dist['by_cores'] += 1
             if smt_env: dist['smt_env'] += 1
-            res = size_real(rp, lc, sess, r['label'], r['schema'], pdd, smt_env)
+            res = size_real(rp, lc, sess, r['label'], r['schema'], pdd, smt_env, rcfg=bulk_rcfg)
             op = {'op': 'size', 'cpn': r['cpn'], 'gpn': r['gpn'], 'smt': smt,
                   'bc': len(r['blockedCores']), 'bg': len(r['blockedGpus']),
                   'nodes': pdd.get('nodes', 0), 'cores': pdd.get('cores', 0) if 'nodes' not in pdd else 1,
@@ -234,7 +242,9 @@ def run(ctx):
             bad = monitor_size(r, pdd, smt, res)
             if bad:
                 ctx.fail(bad[0], bad[1], {'kind': 'size', 'label': r['label'], 'schema': r['schema'],
-                                          'pd': pdd, 'smt_env': smt_env}, observed=res)
+                                          'pd': pdd, 'smt_env': smt_env, 'earlier_pilots_of_the_bulk': list(bulk)},
+                         observed=res)
+            bulk.append([pdd, smt_env])
     ctx.sample({'op': ops[0], 'real_prepare_pilot': impl[0]}, limit=1)
     ctx.sample({'op': ops[-1], 'real_prepare_pilot': impl[-1]}, limit=2)
     ctx.extra['distribution'] = dist
@@ -245,7 +255,8 @@ def run(ctx):
                 'backup nodes, RADICAL_SMT); non-trivial = _prepare_pilot produced a job description' % nsz)
     ctx.assume += ['math.ceil(a / b) equals integer ceiling division on the tied range (< 2^40)',
                    'radical.utils (Config, read_json, TypedDict.verify) is environment',
-                   'bootstrapper arguments and the SAGA/PSI-J translation of jd_dict are not modelled']
+                   'bootstrapper arguments and the SAGA/PSI-J translation of jd_dict are not modelled',
+                   'all pilots of one row are prepared with the same resource config object, as in one launch bulk (sizing must not depend on earlier pilots)']
     ctx.trusted += ['harness/translate.py gen_configs/gen_factories (cross-checked exhaustively against the real Session.get_resource_config)',
                     'decide +kernel (no axioms) for the table theorem']
 
@@ -264,7 +275,10 @@ def replay(ctx, data):
     if i['kind'] == 'size':
         rows = [r for r in translate.resource_rows(common.SRC) if r['label'] == i['label'] and r['schema'] == i['schema']]
         lc = make_launcher(rp, ctx.scratch)
-        res = size_real(rp, lc, sess, i['label'], i['schema'], i['pd'], i['smt_env'])
+        rcfg = sess.get_resource_config(i['label'], i['schema'] or None)
+        for pd0, smt0 in i.get('earlier_pilots_of_the_bulk', []):
+            size_real(rp, lc, sess, i['label'], i['schema'], pd0, smt0, rcfg=rcfg)
+        res = size_real(rp, lc, sess, i['label'], i['schema'], i['pd'], i['smt_env'], rcfg=rcfg)
         bad = monitor_size(rows[0], i['pd'], i['smt_env'] or rows[0]['smt'], res)
         print('observed:', res, bad)
         return not bad
